@@ -1184,6 +1184,7 @@ static int mdl_load(struct module_data *m, HIO_HANDLE *f, const int start)
     data.p_index = (int *) malloc(256 * sizeof(int));
     data.f_index = (int *) malloc(256 * sizeof(int));
     if (!data.s_index || !data.i_index || !data.v_index || !data.p_index || !data.f_index) {
+	libxmp_iff_release(handle);
 	goto err;
     }
 
